@@ -1243,6 +1243,7 @@ qh::GenOptions genOptionsFor(const std::string& property, sim::Rng& knob) {
     go.tracked = knob.chance(0.3);
     if (property == "C04") go.aliasProb = knob.chance(0.3) ? 0.12 : 0.0;
     if (property == "C06") go.aliasProb = knob.chance(0.25) ? 0.1 : 0.0;
+    if (property == "C06") go.portProb = knob.chance(0.25) ? 0.1 : 0.0;
     if (property == "C06" || property == "C05") go.argEffectProb = knob.chance(0.3) ? 0.04 : 0.0;
     if (property == "C05") go.hugeLoopProb = 0.0;   // set per run index by the caller
     if (property == "C03" || property == "C05" || property == "C06") go.nonFiniteAngleProb = knob.chance(0.3) ? 0.01 : 0.0;
